@@ -259,6 +259,29 @@ pub fn fals_c18(rng: &mut Rng, thorough: bool, release: bool) -> Fals {
         f.check("random-tensor", dims_ok && t.shape == s && v.len() == shape_numel(&s) && v.iter().all(|x| *x >= lo && *x <= hi),
                 "Tensor::random shape or range", || format!("shape {:?} range [{}, {}]", s, lo, hi));
     }
+    // EXTREME intervals for randomly initialised tensors: widths that overflow binary32 (hi - lo = +inf), intervals
+    // next to f32::MAX, of subnormal width, degenerate at values that are no powers of two, far from zero; every rank
+    for (k, &(lo, hi)) in [(-3e38f32, 3e38f32), (-f32::MAX, f32::MAX), (-2e38, 2.5e38), (-1e37, f32::MAX), (3.3e38, f32::MAX), (-f32::MAX, -3.3e38),
+                           (0.0, 1e-45), (-1e-40, 1e-40), (0.1, 0.1), (0.7, 0.7), (0.1, 0.3), (1000.0, 1001.0), (-1001.0, -1000.0), (1.5, 1.75), (1e30, 1.0000001e30)].iter().enumerate() {
+        for (r, s) in [Shape::Single(7), Shape::Double(3, 5), Shape::Triple(2, 3, 4), Shape::Quadruple(2, 2, 2, 3), Shape::Single(300)].iter().enumerate() {
+            if !(thorough || (k + r) % 2 == 0) {
+                continue;
+            }
+            for _rep in 0..(if thorough { 6 } else { 2 }) {
+                match catch_unwind(AssertUnwindSafe(|| Tensor::random(s.clone(), lo, hi))) {
+                    Ok(t) => {
+                        let v = flat_of(&t);
+                        f.check("random-tensor/extreme-interval", t.shape == *s && v.len() == shape_numel(s) && v.iter().all(|x| *x >= lo && *x <= hi),
+                                "an entry of a randomly initialised tensor lies outside the requested interval", || {
+                                    let bad = v.iter().find(|x| !(**x >= lo && **x <= hi)).cloned().unwrap_or(f32::NAN);
+                                    format!("Tensor::random({:?}, {:e}, {:e}): entry {:e}", s, lo, hi, bad)
+                                });
+                    }
+                    Err(_) => f.check("random-tensor/extreme-interval", false, "Tensor::random panicked", || format!("shape {:?} range [{:e}, {:e}]", s, lo, hi)),
+                }
+            }
+        }
+    }
     f
 }
 
@@ -356,6 +379,23 @@ pub fn gen_c07(rng: &mut Rng, thorough: bool) -> Vec<Tagged> {
                 if k % 2 == 0 {
                     out.push((format!("{:?}-huge-flat-{}", a, if bwd { "bwd" } else { "fwd" }), Case::Act(a, bwd, t1(v3.clone()))));
                 }
+            }
+        }
+    }
+    // 3-D tensors in which a WHOLE channel is zero (+0.0 or -0.0), a whole channel is one constant, the whole tensor
+    // is zero, and 1 x 1 x 1 tensors: every element is mapped on its own, whatever its neighbours are
+    for a in ALL_ACTS {
+        let cases: Vec<Tensor> = vec![
+            t3(2, 2, 2, &[0.0, 0.0, 0.0, 0.0, 0.5, -1.5, 2.0, 0.0]),
+            t3(2, 2, 2, &[1.0, -2.0, 0.0, 3.0, -0.0, -0.0, -0.0, -0.0]),
+            t3(3, 1, 2, &[0.0, -0.0, 0.0, 0.0, -0.0, 0.0]),
+            t3(2, 1, 3, &[2.5, 2.5, 2.5, -1.0, -1.0, -1.0]),
+            t3(1, 1, 1, &[0.0]), t3(1, 1, 1, &[-0.0]), t3(1, 1, 1, &[-3.0]), t3(1, 2, 1, &[0.0, 0.0]),
+            t1(vec![0.0, 0.0, 0.0]), t1(vec![-0.0]), t1(vec![0.0]),
+        ];
+        for x in cases {
+            for bwd in [false, true] {
+                out.push((format!("{:?}-whole-channel-zero-or-constant-{}", a, if bwd { "bwd" } else { "fwd" }), Case::Act(a, bwd, x.clone())));
             }
         }
     }
